@@ -66,15 +66,16 @@ type SpecDB struct {
 	Globals  []*Block
 	All      []*Block
 	UsedKeys map[string]bool
+	Ghosts   map[string][]string // ghost counter maps: name -> key types
 }
 
 func NewSpecDB() *SpecDB {
-	return &SpecDB{Funcs: map[string]*Block{}, Loops: map[string]*Block{}, Pures: map[string]*Block{}, UsedKeys: map[string]bool{}}
+	return &SpecDB{Funcs: map[string]*Block{}, Loops: map[string]*Block{}, Pures: map[string]*Block{}, UsedKeys: map[string]bool{}, Ghosts: map[string][]string{}}
 }
 
 var clauseKW = map[string]bool{"requires": true, "ensures": true, "modifies": true, "invariant": true,
 	"decreases": true, "check": true, "effects": true, "thread": true, "acquires": true, "releases": true,
-	"assumes": true, "opaque": true, "panics": true, "funcspec": true, "inline": true, "havoc": true, "trusted": true, "asserts": true, "unroll": true, "nilreceiver": true, "ghostinc": true}
+	"assumes": true, "opaque": true, "panics": true, "funcspec": true, "inline": true, "havoc": true, "trusted": true, "asserts": true, "unroll": true, "nilreceiver": true, "ghostinc": true, "allocbound": true}
 var blockKW = map[string]bool{"abstract": true, "pure": true, "func": true, "loop": true, "assume": true, "lemma": true,
 	"guarded": true, "ghost": true, "global": true}
 
@@ -212,9 +213,21 @@ func (db *SpecDB) parseHeader(b *Block, h string) error {
 	case "global":
 		db.Globals = append(db.Globals, b)
 	case "ghost":
+		// ghost name(keytype[, keytype]) : a ghost counter map
+		m := ghostHeaderRe.FindStringSubmatch(h)
+		if m == nil {
+			return fmt.Errorf("bad ghost header: %s", h)
+		}
+		var keys []string
+		for _, k := range splitTop(m[2], ',') {
+			keys = append(keys, strings.TrimSpace(k))
+		}
+		db.Ghosts[m[1]] = keys
 	}
 	return nil
 }
+
+var ghostHeaderRe = regexp.MustCompile(`^ghost\s+([A-Za-z_][A-Za-z0-9_]*)\s*\(([^)]*)\)\s*$`)
 
 // canonFuncKey turns "(*RingQueue).Push" (+pkg) into "(*pkg.RingQueue).Push", "New" into "pkg.New".
 // Names that already contain a package path (contain '/' or a '.' before the type) are kept.
@@ -327,7 +340,7 @@ func (db *SpecDB) Finish() error {
 		}
 		for _, c := range b.Clauses {
 			switch c.Kind {
-			case "requires", "ensures", "invariant", "decreases", "assumes", "panics", "asserts":
+			case "requires", "ensures", "invariant", "decreases", "assumes", "panics", "asserts", "allocbound":
 				e, err := ParseExpr(c.Text)
 				if err != nil {
 					return fmt.Errorf("%s:%d: %v (in %q)", c.File, c.Line, err, c.Text)
